@@ -13,7 +13,8 @@ EXPLANATION = (
     "sharing polynomial is a deterministic function of (threshold, r0, r1) - no RNG atom reaches the dealer; (R7) the "
     "payload is len|measurement followed by len|aux exactly when aux is Some (no further condition); (R8) no failure site of client generation, key derivation, decryption or report encoding depends on the measurement, epoch, threshold, randomness or associated data (discharged by the C09 engine), so no honest input can make a step of recovery crash.  Codec "
     "agreement (R6) is decided under C08.  NOT decided: that Lagrange interpolation at 0 returns the constant "
-    "term, that Strobe decrypts what it encrypted, any statement about concrete thresholds / subsets.")
+    "term, that Strobe decrypts what it encrypted, any statement about concrete thresholds / subsets."
+    "  Also (R2) encryption and decryption use opposite Strobe directions (send_enc / recv_enc), and (R7) no length header passes through an integer type narrower than its 4 bytes.")
 ASSUMPTIONS = ["Strobe send_enc/recv_enc under equal transcripts are inverse (trusted: strobe-rs)",
                "BTreeSet::insert returns true iff the value was not present (std)"]
 TRUSTED = []
@@ -174,7 +175,8 @@ def payload_framing(ctx, rule):
                 return [("part", Q_strip(p_[1])) if p_[0] == "part" else p_ for p_ in seq]
             parts = [("alt", [_norm(head), _norm(head + list(opt_tail[0][2]))])]
         def lp_pair(a, b):
-            return a[0] == "part" and b[0] == "part" and a[1].op == "bytes_of" and a[1].args[1] == 4 and \
+            from .c08 import narrowed_header
+            return a[0] == "part" and b[0] == "part" and a[1].op == "bytes_of" and a[1].args[1] == 4 and not narrowed_header(a[1]) and \
                 Q.contains(a[1], lambda x: x.op == "len" and (x.args[0] is b[1] or Q_strip(x.args[0]) is Q_strip(b[1])))
         ix = fidx(ctx, "sta_rs::MessageGenerator", "x")
         alts = []
